@@ -26,6 +26,7 @@ def dispatch (line : String) : String :=
   | "audec" :: rest => CodecDriver.handleAuDec (" ".intercalate rest)
   | "codec" :: rest => CodecDriver.handleCodec (" ".intercalate rest)
   | "reasm" :: rest => CodecDriver.handleReasm (" ".intercalate rest)
+  | "tcp" :: rest => CodecDriver.handleTcp (" ".intercalate rest)
   | "sigmf" :: rest => CodecDriver.handleSigmf (" ".intercalate rest)
   | "dsp" :: rest => DspDriver.handle (" ".intercalate rest)
   | "wait" :: rest => WaitDriver.handle (" ".intercalate rest)
